@@ -50,7 +50,7 @@ THEOREMS = [
     'C09_geomcomp_one_line', 'C09_geomcomp_lines',
     'C09_volume_gets_leaf_material', 'C09_compositions_exact',
     'C09_compositions_distinct', 'C09_geomcomp_name_has_composition',
-    'C09_write_compositions', 'C09_block_head',
+    'C09_write_compositions', 'C09_block_head', 'C09_block_written',
     'C09_point_gets_leaf_material_linked', 'C09_density_type_by_sign',
 ]
 TRUSTED = [
